@@ -36,7 +36,7 @@ type job struct {
 }
 
 func createN(n, d int64, rep bool, a int64) hx.T { return hx.C("OCreateN", n, d, rep, a) }
-func stall(ms int64) hx.T                     { return hx.C("OStall", ms) }
+func stall(ms int64) hx.T                        { return hx.C("OStall", ms) }
 
 // ---- at and beyond the capacity (999) of Mgr.queue: more expiries pending than the channel
 // holds while the owner does not read it for stallMs; afterwards the owner drains everything,
@@ -225,7 +225,7 @@ func lifecycle() []job {
 				tm := func(prog ...any) hx.T { return create(d, rep, 7, prog...) }
 				by := create(2, true, 9) // repeating bystander
 				one := create(1, false, 8)
-				nested := hx.C("ACreate", 1, true, 4, []any{})
+				nested := hx.C("ACreate", 1, false, 4, []any{})
 				// ---- start-up
 				add("created-and-due-before-start", tm(body()...), by, wait(0), start)
 				add("created-before-start-waits-long", tm(body()...), wait(0), stall(15), start)
@@ -279,28 +279,39 @@ func enumerateSvc(L int, emit func([]hx.T)) {
 	rec(0)
 }
 
-func genSvcProg(r *rand.Rand, depth int, nT int64) []any {
+// A callback that stops its own service does so first: what it arms before a Stop() in the same
+// callback would race with that Stop() (has the expiry reached the channel or not?).
+// A released loop must get to the end of its queue, so the population of repeating timers is kept
+// bounded: under = 0 no repeating ancestor (anything may be created), 1 the program belongs to a
+// repeating timer or has a repeating ancestor (it creates one-shots only, whose programs create
+// nothing: under = 2).
+func genSvcProg(r *rand.Rand, depth int, nT int64, under int) []any {
 	p := []any{}
+	if r.Intn(9) == 0 {
+		p = append(p, "AStop")
+	}
 	for n := r.Intn(4); n > 0; n-- {
-		switch x := r.Intn(12); {
+		switch x := r.Intn(10); {
 		case x < 2:
 			p = append(p, "ACancelSelf")
 		case x < 5:
 			p = append(p, hx.C("ACancel", r.Int63n(nT+2)))
-		case x < 8 && depth > 0:
+		case x < 8 && depth > 0 && under < 2:
 			d := 2 + r.Int63n(3)
 			if r.Intn(3) == 0 {
 				d = r.Int63n(2)
 			}
-			rep := r.Intn(2) == 0
+			rep := under == 0 && r.Intn(2) == 0
 			if rep && d < 2 {
 				d = 2
 			}
-			p = append(p, hx.C("ACreate", d, rep, r.Int63n(100), genSvcProg(r, depth-1, nT)))
+			sub := under + 1
+			if under == 0 && !rep {
+				sub = 0
+			}
+			p = append(p, hx.C("ACreate", d, rep, r.Int63n(100), genSvcProg(r, depth-1, nT, sub)))
 		case x < 9:
 			p = append(p, "APanic")
-		case x < 10:
-			p = append(p, "AStop")
 		}
 	}
 	return p
@@ -323,7 +334,11 @@ func genSvcRandom(r *rand.Rand, maxLen int) []hx.T {
 			if rep && d < 2 {
 				d = 2 // a released loop must get to the end of its queue
 			}
-			ops = append(ops, create(d, rep, r.Int63n(100), genSvcProg(r, 2, nT)...))
+			under := 0
+			if rep {
+				under = 1
+			}
+			ops = append(ops, create(d, rep, r.Int63n(100), genSvcProg(r, 2, nT, under)...))
 			created++
 		case x < 40:
 			ops = append(ops, cancel(r.Int63n(created+2)))
